@@ -492,7 +492,7 @@ func (c *fnCtx) mergeInto(b *ssa.BasicBlock) *State {
 		preTop := st.top
 		pre := map[string]string{}
 		for _, m := range mods {
-			if li.localOnly[m] {
+			if li.localOnly[m] && !strings.HasPrefix(m, "$g:") {
 				pre[m] = c.comp(st, m, c.compSort(m))
 			}
 		}
@@ -504,7 +504,7 @@ func (c *fnCtx) mergeInto(b *ssa.BasicBlock) *State {
 		}
 		// components written only inside this activation's own allocations keep their values everywhere else
 		for _, m := range mods {
-			if !li.localOnly[m] {
+			if !li.localOnly[m] || strings.HasPrefix(m, "$g:") {
 				continue
 			}
 			cond := app("<=", app("rootid", "r"), preTop)
@@ -521,7 +521,7 @@ func (c *fnCtx) mergeInto(b *ssa.BasicBlock) *State {
 	if c.con != nil && c.con.HasMod && !c.con.ModAll && !all {
 		whole, precise := c.modSpec()
 		for _, m := range mods {
-			if whole[m] {
+			if whole[m] || strings.HasPrefix(m, "$g:") {
 				continue
 			}
 			srt := c.compSort(m)
@@ -549,7 +549,7 @@ func (c *fnCtx) mergeInto(b *ssa.BasicBlock) *State {
 		n := c.fresh("g")
 		c.declare(n, "Int")
 		st.ghost[gk] = n
-		if !mentioned {
+		if !mentioned && gk == "g_open" {
 			// default candidate: the loop is balanced (each iteration releases what it acquires)
 			autoGhost[gk] = pre
 			c.assume(st, sEq(n, pre))
